@@ -1,7 +1,7 @@
 """Helpers shared by the translators (fail-closed: anything unexpected raises)."""
 import os
 
-REPO = '/repo'
+REPO = os.environ.get('VERIF_REPO', '/repo')
 ROOT = os.environ.get('VERIF_ROOT', '/verif')
 GEN = os.path.join(ROOT, 'coq', 'Gen')
 
